@@ -331,6 +331,13 @@ int do_comm_polling (struct timeval *timeout) {
   return g_num_io_events;
 }
 
+#ifdef NEOLITH_VERIF
+/* verification hook: observes every add_message() / add_vmessage() call.
+ * phase 0: entry (text as it will be stored); phase 1: the text is in the ring (or given up) and the call is
+ * about to forward it to a snooper; phase 2: the call returns early (no usable connection). */
+void (*verif_add_message_hook) (object_t * who, const char *text, int vmessage, int phase) = 0;
+#endif
+
 /*
  * Send a message to an interactive object.
  */
@@ -339,12 +346,20 @@ void add_message (object_t * who, char *data) {
   interactive_t *ip;
   char *cp;
 
+#ifdef NEOLITH_VERIF
+  if (verif_add_message_hook)
+    verif_add_message_hook (who, data, 0, 0);
+#endif
   /* check destination of message */
   if (!who || (who->flags & O_DESTRUCTED) || !who->interactive ||
       (who->interactive->iflags & (NET_DEAD | CLOSING)))
     {
       if (who == master_ob || who == simul_efun_ob)
         debug_message ("%s", data);
+#ifdef NEOLITH_VERIF
+      if (verif_add_message_hook)
+        verif_add_message_hook (who, data, 0, 2);
+#endif
       return;
     }
 
@@ -358,6 +373,10 @@ void add_message (object_t * who, char *data) {
           if (!flush_message (ip))
             {
               debug_message ("Broken connection during add_message.\n");
+#ifdef NEOLITH_VERIF
+              if (verif_add_message_hook)
+                verif_add_message_hook (who, data, 0, 2);
+#endif
               return;
             }
           if (ip->message_length == MESSAGE_BUF_SIZE)
@@ -370,6 +389,10 @@ void add_message (object_t * who, char *data) {
               if (!flush_message (ip))
                 {
                   debug_message ("Broken connection during add_message.\n");
+#ifdef NEOLITH_VERIF
+                  if (verif_add_message_hook)
+                    verif_add_message_hook (who, data, 0, 2);
+#endif
                   return;
                 }
               if (ip->message_length == (MESSAGE_BUF_SIZE - 1))
@@ -384,6 +407,10 @@ void add_message (object_t * who, char *data) {
       ip->message_length++;
     }
 
+#ifdef NEOLITH_VERIF
+  if (verif_add_message_hook)
+    verif_add_message_hook (who, data, 0, 1);
+#endif
   /* snoop handling. */
   if (ip->snoop_by)
     receive_snoop (data, ip->snoop_by->ob);
@@ -433,6 +460,10 @@ void add_vmessage (object_t * who, char *format, ...) {
       return;
     }
 
+#ifdef NEOLITH_VERIF
+  if (verif_add_message_hook)
+    verif_add_message_hook (who, str, 1, 0);
+#endif
   /*
    * if who->interactive is not valid, write message on stderr.
    * (maybe)
@@ -442,6 +473,10 @@ void add_vmessage (object_t * who, char *format, ...) {
     {
       if (who == master_ob || who == simul_efun_ob)
         debug_message ("%s", str);
+#ifdef NEOLITH_VERIF
+      if (verif_add_message_hook)
+        verif_add_message_hook (who, str, 1, 2);
+#endif
       free (str);
       return;
     }
@@ -485,6 +520,10 @@ void add_vmessage (object_t * who, char *format, ...) {
   if ((ip->message_length != 0) && !flush_message (ip))
     debug_message ("Broken connection during add_message.\n");
 
+#ifdef NEOLITH_VERIF
+  if (verif_add_message_hook)
+    verif_add_message_hook (who, str, 1, 1);
+#endif
   /* snoop handling. */
   if (ip->snoop_by)
     receive_snoop (str, ip->snoop_by->ob);
